@@ -46,7 +46,7 @@ ON_SIZES = ["1 GiB", "733 MiB", "1.46 GiB", "0.977 KiB", "1e+03 MiB", "512 B", "
 ALL_ON_SIZES = ["1 B", "10 B", "100 B", "999 B", "0.977 KiB", "1 KiB", "1.5 KiB", "20 KiB", "733 MiB", "1e+03 MiB",
                 "1 GiB", "1.46 GiB", "10.5 GiB", "2 TiB"]
 OFF = "0 B"
-GHOSTS = {True: ["ghost.qcow2.bak", "spook.st.qcow2"], False: ["ghost.qco.state", "spook.state.bak"]}   # image dir / vm dir
+GHOSTS = {True: ["ghost.qcow2.bak", "spook.sta.qcow2"], False: ["ghost.qco.state", "spook.state.bak"]}   # image dir / vm dir
 VM = mock.MagicMock(name="vm1")       # the vm object is only passed through by the functions under check
 LAYOUTS = ["fixture", "qemu4", "qemu6", "qemu6_icount0", "qemu6_icount"]
 HEADERS = {"fixture": "", "qemu4": "Snapshot list:\n%-10s%-20s%7s%20s%15s\n" % ("ID", "TAG", "VM SIZE", "DATE", "VM CLOCK")}
@@ -252,7 +252,7 @@ class Tally:
         self.cases += 1
         self.per_ob[ob] = self.per_ob.get(ob, 0) + 1
         if nontrivial_key is not None:
-            self.nontrivial.add(nontrivial_key)
+            self.nontrivial.add(hash(nontrivial_key))       # hashes keep the thorough tier small in memory
         if self.cases % 1999 == 1 and len(self.samples) < 6:
             self.samples.append(inp)
         if not ok:
